@@ -77,7 +77,9 @@ def run(tier):
     ncfg, nraw = (150, 60) if tier == "quick" else (2000, 100)
     blocks = []
     for ci in range(ncfg):
-        cfg = g.cfg(constraints=True, groups=r.choice([1, 1, 2]))
+        # growing bit sets (vector<bool>, DynamicBitset) are kept out: random digits as a bit position make them allocate
+        # gigabytes (ASan aborts on exhausted memory); positions have no documented limit, see docs/notes_prog_args_kinds.md
+        cfg = g.cfg(constraints=True, groups=r.choice([1, 1, 2]), exclude=arggen.GROWBITS)
         if ci % 3 == 0:
             # a sub-group handler entered by its own key (evaluated by a nested handler until a word is not for it)
             sub = g.cfg(nargs=r.randint(1, 3), kinds=["flag", "int", "str", "vecint"], constraints=False, allow_pos=False)
